@@ -440,6 +440,48 @@ type typeLine struct {
 	Note  string `json:"note"`
 }
 
+// undefined codes: an AVP whose (code, vendor) no loaded dictionary defines is carried as an opaque placeholder,
+// whatever its flags, at top level and inside a group of the base dictionary, and is written back unchanged
+type undefLine struct {
+	Ev     string `json:"ev"`
+	ID     int    `json:"id"`
+	Flags  int    `json:"flags"`
+	Vendor int    `json:"vendor"`
+	Nested bool   `json:"nested"`
+	OK     bool   `json:"ok"`
+	Note   string `json:"note"`
+}
+
+func undefinedCodes(out *Out, id *int) {
+	for _, fl := range []uint8{0x00, 0x40, 0x20, 0x60, 0x80, 0xC0} {
+		for _, nested := range []bool{false, true} {
+			*id++
+			l := undefLine{Ev: "undef", ID: *id, Flags: int(fl), Nested: nested}
+			vendor := uint32(0)
+			if fl&0x80 != 0 {
+				vendor = 4242
+			}
+			l.Vendor = int(vendor)
+			one := rawAVP(7654, fl, vendor, int(8+4*(fl>>7))+5, []byte{1, 2, 3, 4, 5}, true)
+			body := one
+			if nested {
+				body = rawAVP(279, 0x40, 0, 8+len(one), one, true)
+			}
+			b := msgBytes(body, 257, 0, 0x80)
+			l.Note = safely(func() {
+				m, err := diam.ReadMessage(bytes.NewReader(b), dict.Default)
+				if err != nil {
+					l.Note = err.Error()
+					return
+				}
+				b2, err := m.Serialize()
+				l.OK = err == nil && bytes.Equal(b, b2)
+			})
+			out.Emit(l)
+		}
+	}
+}
+
 func typeNames(out *Out, id *int) {
 	// the type names of RFC 6733 4.2-4.3 plus the library's extensions
 	names := []string{"OctetString", "Integer32", "Integer64", "Unsigned32", "Unsigned64", "Float32", "Float64", "Grouped", "Address", "Time",
@@ -512,5 +554,6 @@ func Dict(a Args) error {
 		return err
 	}
 	typeNames(out, &id)
+	undefinedCodes(out, &id)
 	return nil
 }
